@@ -173,9 +173,25 @@ fn strategy(cap: usize, long: bool) -> BoxedStrategy<Case> {
         .prop_flat_map(move |k| cfg_for(k, cap, multiplier_any()))
         .prop_flat_map(move |cfg| {
             let n = flush_len(&cfg);
-            (Just(cfg), history_strategy(n, long), vec(inp_finite(), (n + 2)..=(3 * n + 5)))
+            (Just(cfg), history_strategy(n, long), vec(inp_finite(), (n + 2)..=(3 * n + 5)), 0usize..8)
         })
-        .prop_map(|(cfg, history, continuation)| Case { cfg, history, continuation })
+        .prop_map(|(cfg, history, mut continuation, flat)| {
+            // a flat continuation (every bar identical) or one with a long plateau: constant-window shortcuts
+            // consult state that reset() may have left behind
+            if flat == 0 {
+                let f = continuation[0].clone();
+                for c in continuation.iter_mut() {
+                    *c = f.clone();
+                }
+            } else if flat == 1 {
+                let k = continuation.len() / 3;
+                let f = continuation[k].clone();
+                for c in continuation.iter_mut().skip(k) {
+                    *c = f.clone();
+                }
+            }
+            Case { cfg, history, continuation }
+        })
         .boxed()
 }
 
